@@ -155,13 +155,7 @@ func (w *W) runPath(s *State) (forks []*State) {
 				w.solver.where = where(s)
 				// model-based shortcut: if the last model of this state still satisfies the path
 				// condition and this literal, the branch is feasible without asking the solver
-				var v Result
-				if s.modelSatisfies(npc) {
-					v = Result{Status: "sat", Model: s.model, Backend: "model"}
-					atomic.AddInt64(&stats.ModelHits, 1)
-				} else {
-					v = w.solver.Check(npc, true, QFeas)
-				}
+				v := w.feasible(s, c)
 				if v.Status == "unsat" {
 					continue
 				}
